@@ -293,6 +293,12 @@ class GenericTypeMeta(type):
         if cls is subcls:
             return True
 
+        # A typing_wrap()-ed Union is a subclass iff all of its members are.
+        if isinstance(subcls, _RuntimeSubclassCheckMeta) and get_args(subcls):
+            wrapped = get_args(subcls)[0]
+            if get_origin(wrapped) is typing.Union:
+                return all(issubclass(typing_wrap(arg), cls) for arg in get_args(wrapped))
+
         cls_origin = get_origin(cls)
         if not isinstance(subcls, GenericTypeMeta):
             return super(GenericTypeMeta, cls_origin).__subclasscheck__(subcls)
